@@ -151,6 +151,13 @@ class Index(object):
             from .canon import canonicalise
             from .normalize import normalize_package, propagate_constants, desugar
             trees = dict((m.name, m.tree) for m in self.modules.values())
+            from .normalize import deproperty
+            from .canon import load_ref as _lr
+            self.depropertied = deproperty(trees, _lr())
+            from .normalize import destatic
+            self.destaticed = destatic(trees, _lr())
+            from .normalize import unroll_literal_tables
+            self.unrolled = unroll_literal_tables(trees)
             self.canonicalised = canonicalise(trees)
             from .canon import canonicalise_locals
             self.canonicalised += canonicalise_locals(trees)
